@@ -277,6 +277,7 @@ func (r *reqEnv) matchRun(run *result.TracerouteRun, used map[int]bool) *simEnv 
 // C11 when a hop carries an address that belongs to another flow).
 func (r *reqEnv) judgeRuns(res *result.Results, tag string) {
 	used := map[int]bool{}
+	r.checkReportedDestination(res, tag)
 	for i := range res.Traceroute.Runs {
 		run := &res.Traceroute.Runs[i]
 		f := r.matchRun(run, used)
@@ -300,6 +301,39 @@ func (r *reqEnv) judgeRuns(res *result.Results, tag string) {
 		f.checkCompleteness(drive.Result{Run: run}, fl, js, tag)
 		f.checkEmissions(drive.Result{Run: run}, fl, js, tag)
 	}
+}
+
+// checkReportedDestination (C06, "the destination endpoint reported in the result is the one that was on the wire"),
+// for the request-level destination: when the target was given without a literal port, the reported port is the one
+// every UDP/TCP probe of the request went to (an omitted port means the documented default, which is what is sent).
+func (r *reqEnv) checkReportedDestination(res *result.Results, tag string) {
+	if res == nil || hasLiteralPort(r.params.Hostname) {
+		return
+	}
+	r.w.Lock()
+	ports := map[uint16]int{}
+	for _, em := range r.w.Emissions {
+		if em.Pkt != nil && (em.Pkt.Proto == 6 || em.Pkt.Proto == 17) && em.Pkt.Dst == r.target {
+			ports[em.Pkt.DstPort]++
+		}
+	}
+	r.w.Unlock()
+	if len(ports) != 1 {
+		return
+	}
+	for p := range ports {
+		r.c.Count("reported_destination_checked", 1)
+		if res.Destination.Port != int(p) {
+			r.c.Violate("C06", "reported-dport/request", fmt.Sprintf("%s: the result reports destination port %d (requested %d); every probe went to port %d", tag, res.Destination.Port, r.params.Port, p), nil)
+		}
+	}
+}
+
+func hasLiteralPort(h string) bool {
+	if strings.HasPrefix(h, "[") {
+		return strings.Contains(h, "]:")
+	}
+	return strings.Count(h, ":") == 1
 }
 
 func fmtHops(run *result.TracerouteRun) []string {
